@@ -65,12 +65,33 @@ func (s *pathState) set(i string, b bool) {
 type failingPlugin struct {
 	st   *pathState
 	name string
+	// hold: the next Apply blocks until release is closed (one-shot; op O)
+	mu      sync.Mutex
+	hold    bool
+	held    chan struct{} // closed when an Apply has started to block
+	release chan struct{}
+}
+
+func (p *failingPlugin) arm() {
+	p.mu.Lock()
+	p.hold, p.held, p.release = true, make(chan struct{}), make(chan struct{})
+	p.mu.Unlock()
 }
 
 func (*failingPlugin) Name() string                 { return "verif-failing" }
 func (*failingPlugin) String() string               { return "verif-failing" }
 func (*failingPlugin) Prepare(*net.Interface) error { return nil }
 func (p *failingPlugin) Apply(*ndp.RouterAdvertisement) error {
+	p.mu.Lock()
+	if p.hold {
+		p.hold = false
+		held, release := p.held, p.release
+		p.mu.Unlock()
+		close(held)
+		<-release
+	} else {
+		p.mu.Unlock()
+	}
 	p.st.mu.Lock()
 	defer p.st.mu.Unlock()
 	if p.st.pluginFail[p.name] {
@@ -93,6 +114,7 @@ func (b *syncBuf) count(sub string) int {
 }
 
 type pathIface struct {
+	fp      *failingPlugin
 	name    string
 	cfg     config.Interface
 	conns   []*vfConn
@@ -114,6 +136,7 @@ const (
 )
 
 type pathOp struct {
+	held  bool // a periodic generation of the interface is held in flight (inside the plugin) until the end of the history
 	pfail bool // the next Apply of the interface's wildcard plugin fails (its address source fails once)
 	fail  bool // the next forwarding read of the interface fails
 	flip  bool
@@ -138,9 +161,10 @@ func runPaths(t *testing.T, out *vfh.Out, lifetimes [2]time.Duration, ops []path
 			cfg.Name = name
 			// a wildcard plugin whose address source can be made to fail once (op P): a plugin failure
 			// while an RA is being generated must not let an RA out that skips the forwarding rule
-			cfg.Plugins = append(cfg.Plugins, &failingPlugin{st: st, name: name})
+			fp := &failingPlugin{st: st, name: name}
+			cfg.Plugins = append(cfg.Plugins, fp)
 			cfgs = append(cfgs, cfg)
-			ifis[k] = &pathIface{name: name, cfg: cfg, watchC: make(chan netstate.Change, 8), done: make(chan error, 1)}
+			ifis[k] = &pathIface{fp: fp, name: name, cfg: cfg, watchC: make(chan netstate.Change, 8), done: make(chan error, 1)}
 		}
 		reg := prometheus.NewPedanticRegistry()
 		mm := NewMetrics(metricslite.NewPrometheus(reg), "v", time.Time{}, st, cfgs)
@@ -187,6 +211,19 @@ func runPaths(t *testing.T, out *vfh.Out, lifetimes [2]time.Duration, ops []path
 		}
 		for _, op := range ops {
 			pi := ifis[op.iface]
+			if op.held {
+				// wait for the next periodic RA of the interface to be under construction — it has
+				// read the forwarding state and now sits in a plugin's Apply — and leave it there
+				c.S("O").N(op.iface)
+				pi.fp.arm()
+				select {
+				case <-pi.fp.held:
+				case <-time.After(30 * time.Second):
+					t.Fatalf("no periodic generation started within 30 s")
+				}
+				defer close(pi.fp.release)
+				continue
+			}
 			if op.pfail {
 				c.S("P").N(op.iface)
 				st.mu.Lock()
@@ -409,6 +446,15 @@ func verifC04Paths(t *testing.T, r *vfh.Rand, out *vfh.Out) {
 		for _, b := range []bool{false, true} {
 			runPaths(t, out, lts[1], []pathOp{{iface: 0, path: pSolicited}, {flip: true, iface: 0, b: b}, {pfail: true, iface: 0},
 				{iface: 0, path: p}, {iface: 0, path: pAPI}, {iface: 1, path: pSolicited}})
+		}
+	}
+	// two generations overlap: a periodic RA is under construction (forwarding read, waiting inside
+	// a plugin) when forwarding flips; a generation that starts afterwards — the consistency check
+	// of a neighbour's RA, a scrape, an API request — reflects the state of ITS moment
+	for _, p := range []int{pVerify, pScrape, pAPI} {
+		for _, b := range []bool{false, true} {
+			runPaths(t, out, lts[1], []pathOp{{flip: true, iface: 0, b: !b}, {iface: 0, path: pSolicited}, {held: true, iface: 0},
+				{flip: true, iface: 0, b: b}, {iface: 0, path: p}, {iface: 1, path: pAPI}})
 		}
 	}
 	n := vfh.N(60, 2000)
